@@ -18,7 +18,6 @@ NOPER, NOOER = "-no-gen-PER", "-no-gen-OER"
 REPR6 = [WIDE, INDIRECT, NOCONS, NODEPS, QUOTED, NOPER]      # the six toggles enumerated exhaustively in the thorough tier
 
 DRIVER = ("gen_c13_driver.c", "ops_gen_core.c", "ops_gen_c13.c", "reflect.c")
-F74_SIG = re.compile(r"asn_(OER|PER)_memb_\w+_constr_\d+.? undeclared")
 
 # ---------------------------------------------------------------------------------- option sets
 def option_sets(ctx, thorough_all=False):
@@ -44,10 +43,10 @@ def syn_ok(opts, syn):
     if syn == "oer" and NOOER in opts: return False
     return True
 
-# ---------------------------------------------------------------------------------- region of finding F75
+# ---------------------------------------------------------------------------------- former region of finding F75 (repaired; used for the coverage statistics)
 def alpha_disjoint(t, env, seen=()):
     """does t contain a string type whose permitted alphabet is a union of >= 2 disjoint ranges?  (asn1c then needs
-    the value2code/code2value maps, which it emits as part of the constraint-checking code: F75)"""
+    the value2code/code2value maps; -fno-constraints used to drop them with the constraint-checking code: former finding F75)"""
     k = t["k"]
     if k == "REF":
         return False if t["name"] in seen else alpha_disjoint(env[t["name"]], env, seen + (t["name"],))
@@ -98,9 +97,6 @@ def explicit_ulong_member(t, env, tagdefault, seen=()):
     return False
 
 def known_region(st, env, tn, syn, opts):
-    if syn == "uper" and NOCONS in opts and alpha_disjoint(env[tn], env):
-        st.skipped["F75"] += 1
-        return True
     if syn in ("der", "descr") and WIDE in opts and explicit_ulong_member(env[tn], env, env.get("__tagdefault__")):
         st.skipped["F77"] += 1
         return True
@@ -128,7 +124,8 @@ def has_constraint(t):
 
 def hoist_member_constraints(m):
     """Every constrained type below the top level becomes a named top-level type (so that no
-    *member* carries a constraint: the region where -fno-constraints compiles, see F74)."""
+    *member* carries a constraint: the only shape with which -fno-constraints compiled before finding F74 was repaired; kept
+    as a module variant)."""
     new_types = []
     n = [0]
     def walk(t, top):
@@ -165,7 +162,7 @@ class Erase:
         self.indirect = INDIRECT in opts  # ATF_POINTER of CHOICE members
         self.noper = NOPER in opts        # PER constraint records, CHOICE canonical-order tables
         self.nooer = NOOER in opts        # OER constraint records
-        self.nocons = NOCONS in opts      # (value2code/code2value presence: finding F75, judged on the encodings)
+        self.nocons = NOCONS in opts      # (value2code/code2value presence is judged on the encodings: former finding F75)
 
 def _field(sx, name):
     return next((e for e in sx if isinstance(e, list) and e and e[0] == name), None)
@@ -278,7 +275,6 @@ class PState:
         self.samples = {}
         self.skipped = collections.Counter()
         self.stats = collections.Counter()
-        self.f74_seen = None      # (module text, compiler message)
 
     def fail(self, key, sample):
         self.fails[key] += 1
@@ -302,32 +298,15 @@ def run_module(ctx, st, m, bvals, sets, nvals, try_nocompound=True):
             ctx.log("module does not build with the default options (outside C13's quantifier):", str(getattr(base_exe, "out", base_exe)).strip().split("\n")[0][:160])
             return
         # ---- builds that failed
-        retry = []
         for i, ((b, exe), s) in enumerate(zip(res, eff_sets)):
             if i == 0 or not isinstance(exe, Exception): continue
             msg = getattr(exe, "out", None) or str(exe)
             if s == ("<no -fcompound-names>",):
                 st.stats["no_compound_names_rejected"] += 1       # name clashes are expected without the option
                 continue
-            if NOCONS in s and not (NOPER in s and NOOER in s) and isinstance(exe, build.BuildError) and F74_SIG.search(msg):
-                st.skipped["F74"] += 1
-                if not st.f74_seen: st.f74_seen = (txt, F74_SIG.search(msg).group(0))
-                # the region of F74: only DER/XER can be compared, build with both codecs disabled
-                s2 = tuple(o for o in s if o not in (NOPER, NOOER)) + (NOPER, NOOER)
-                retry.append((i, s2))
-                continue
             first = [l for l in msg.strip().split("\n") if "error" in l or "rror:" in l][:1] or msg.strip().split("\n")[:1]
             st.fail(("build", optname(s), "does not build"), {"module": txt, "options_a": list(full_opts(())), "options_b": list(full_opts(s)),
                                                                 "failure": "the module builds with options_a but not with options_b", "output_b": msg[-1500:], "first_error": first[0][:300]})
-        if retry:
-            r2 = build_many([(f"{m['name']}r{i}", txt, names, full_opts(s2)) for i, s2 in retry])
-            for (i, s2), (b, exe) in zip(retry, r2):
-                res[i][0].cleanup()
-                res[i] = (b, exe); eff_sets[i] = s2
-                if isinstance(exe, Exception):
-                    msg = getattr(exe, "out", None) or str(exe)
-                    st.fail(("build", optname(s2), "does not build"), {"module": txt, "options_a": list(full_opts(())), "options_b": list(full_opts(s2)),
-                                                                        "failure": "does not build", "output_b": msg[-1500:]})
         live = [(i, res[i][1], eff_sets[i]) for i in range(len(res)) if not isinstance(res[i][1], Exception)]
         st.stats["builds"] += len(live)
         st.stats["modules"] += 1
@@ -386,6 +365,9 @@ def run_module(ctx, st, m, bvals, sets, nvals, try_nocompound=True):
                 if o and o.startswith("ok "): declines.setdefault((tn, syn, o[3:]), sx)
                 if k == 0: continue
                 st.stats["enc_compared"] += 1
+                if NOCONS in Bo and syn in ("uper", "oer"):
+                    st.stats["enc_compared_noconstr_per_oer"] += 1      # former regions of F74 (member constraint records) / F75 (PER character maps)
+                    if syn == "uper" and alpha_disjoint(env[tn], env): st.stats["enc_compared_noconstr_uper_disjoint_alphabet"] += 1
                 if o != r:
                     crash = (o or "").startswith("CRASH") or (r or "").startswith("CRASH")
                     why = "crash" if crash else ("bytes differ" if (o or "").startswith("ok") and (r or "").startswith("ok") else "one side fails to encode")
@@ -506,16 +488,42 @@ WITNESSES = {
     "F173": {"module": "W DEFINITIONS AUTOMATIC TAGS ::= BEGIN U ::= INTEGER (0..MAX) END", "type": "U", "op": "enc cxer (int 9223372036854775808)",
              "options_a": list(BASE), "options_b": list(BASE) + [WIDE], "expect_a": "ok " + b"<U>9223372036854775808</U>".hex(),
              "expect_b": "ok " + b"<U>00:80:00:00:00:00:00:00:00</U>".hex()},
-    "F74": {"module": "W DEFINITIONS AUTOMATIC TAGS ::= BEGIN S ::= SEQUENCE { a INTEGER (0..7) } END", "type": "S", "options_b": list(BASE) + [NOCONS],
-            "expect_build_error": F74_SIG.pattern},
-    "F75": {"module": 'W DEFINITIONS AUTOMATIC TAGS ::= BEGIN N ::= NumericString (FROM("0".."3"|" ")) END', "type": "N", "op": "enc uper (os 3320)",
-            "options_a": list(BASE), "options_b": list(BASE) + [NOCONS], "expect_a": "ok 0280", "expect_b": "ok 0260"},
     "F76": {"module": "W DEFINITIONS AUTOMATIC TAGS ::= BEGIN T ::= SET { i INTEGER, e ENUMERATED { m, n } DEFAULT m } END", "type": "T",
             "op": "enc xer (set (i (int 1)))", "options_a": list(BASE), "options_b": list(BASE) + [WIDE],
             "expect_a": "ok " + b"<T>\n    <i>1</i>\n    <e><m/></e>\n</T>\n".hex(), "expect_b": "ok " + b"<T>\n    <i>1</i>\n</T>\n".hex()},
     "F77": {"module": "W DEFINITIONS ::= BEGIN S ::= SEQUENCE { a [5] EXPLICIT INTEGER (0..MAX) } END", "type": "S", "op": "enc der (seq (a (int 1)))",
             "options_a": list(BASE), "options_b": list(BASE) + [WIDE], "expect_a": "ok 3007a505a503020101", "expect_b": "ok 3005a503020101"},
 }
+
+# former witnesses of the repaired findings F74 / F75 (-fno-constraints): same encodings as the default build
+FORMER = {
+    "F74": {"module": "W DEFINITIONS AUTOMATIC TAGS ::= BEGIN S ::= SEQUENCE { a INTEGER (0..7) } END", "type": "S",
+            "ops": ["enc uper (seq (a (int 5)))", "enc oer (seq (a (int 5)))", "enc der (seq (a (int 5)))"], "options_b": list(BASE) + [NOCONS]},
+    "F75": {"module": 'W DEFINITIONS AUTOMATIC TAGS ::= BEGIN N ::= NumericString (FROM("0".."3"|" ")) END', "type": "N",
+            "ops": ["enc uper (os 3320)", "enc uper (os 30313233)", "enc oer (os 3320)"], "options_b": list(BASE) + [NOCONS], "expect": {"enc uper (os 3320)": "ok 0280"}},
+}
+
+def replay_former_witnesses(ctx, st):
+    for fid, w in FORMER.items():
+        names = re.findall(r"(\w+)\s*::=", w["module"].split("BEGIN", 1)[1])
+        r = build_many([("f" + fid + "a", w["module"], names, list(BASE)), ("f" + fid + "b", w["module"], names, w["options_b"])])
+        try:
+            bad = next((e for _, e in r if isinstance(e, Exception)), None)
+            if bad is not None:
+                msg = getattr(bad, "out", None) or str(bad)
+                st.fail(("build", optname((NOCONS,)), "does not build"), {"module": w["module"], "options_a": list(BASE), "options_b": w["options_b"],
+                        "failure": f"former witness of {fid} does not build", "output_b": msg[-1500:]})
+                continue
+            for op in w["ops"]:
+                line = f"@{w['type']} {op}"
+                oa = ctx.run_c_bisect(r[0][1], [line])[0][0]; ob = ctx.run_c_bisect(r[1][1], [line])[0][0]
+                want = w.get("expect", {}).get(op)
+                if oa != ob or not str(oa).startswith("ok ") or (want and oa != want):
+                    st.fail(("enc", optname((NOCONS,)), "different encoding"), {"module": w["module"], "type": w["type"], "op": line, "options_a": list(BASE),
+                            "options_b": w["options_b"], "failure": f"former witness of {fid}: encodings differ", "output_a": oa, "output_b": ob})
+                else: st.stats["former_witness_ops_equal"] += 1
+        finally:
+            for b, _ in r: b.cleanup()
 
 def replay_witnesses(ctx, st):
     for fid, w in WITNESSES.items():
@@ -661,6 +669,7 @@ def run(ctx):
     st = PState()
     k_leg(ctx, st)
     replay_witnesses(ctx, st)
+    replay_former_witnesses(ctx, st)
     nmods = 5 if ctx.quick else 24
     nvals = 6 if ctx.quick else 16
     fm, fvals = focus_module(ctx.rng)
@@ -684,9 +693,6 @@ def run(ctx):
         ctx.log(f"module {m['name']}: {len(sets)} option sets; totals {dict(st.stats)}")
     ctx.cov["programs"] = st.stats["builds"]
     ctx.cov["predicate"]["option_invariance"] = {"stats": dict(st.stats), "failure_classes": len(st.fails), "skipped_known_regions": dict(st.skipped)}
-    if st.f74_seen:
-        f = next((f for f in ctx.findings if f["id"] == "F74" and f.get("status") == "known"), None)
-        if f: ctx.known(f)
     agg = collections.Counter()
     for (kind, on, why), n in st.fails.items(): agg[(kind, why)] += n
     nviol = 0
